@@ -133,6 +133,10 @@ type Path struct {
 	memo       map[*Term]*Term
 	modelHits  int
 	params     map[string]int
+	files       map[string]value
+	nfiles      int
+	stdoutApprox bool
+	printing     bool
 	tm          *threadModel
 	races       []string
 	raceN       int
